@@ -58,6 +58,8 @@ def oracle(script: dict, run: Any) -> List[Violation]:
     h = Hist(run)
     out: List[Violation] = []
     w = h.world
+    # CPU stalls (1..50 ms each, counted by the loop) can delay the instant at which a timeout is noticed
+    stall_margin = 50_000 * int(run.fault_counts.get("cpu_stall", 0))
     for t in h.takes():
         d, k, node = t[4], t[5]["k"], t[2]
         m = h.msg(script, k)
@@ -86,7 +88,7 @@ def oracle(script: dict, run: Any) -> List[Violation]:
             tmo_us = int(round(tmo * 1e6))
             if tmo_us <= total:
                 expect = ["timeout"]
-            elif tmo_us > total + MARGIN_PER_STEP_US * (len(steps) + 1):
+            elif tmo_us > total + MARGIN_PER_STEP_US * (len(steps) + 1) + stall_margin:
                 expect = ["scripted"]
             else:
                 expect = ["timeout", "scripted"]
@@ -103,7 +105,7 @@ def oracle(script: dict, run: Any) -> List[Violation]:
             continue
         if timed_out:
             tmo_us = int(round(tmo * 1e6))
-            if not (fe[1] + tmo_us <= fx[1] <= fe[1] + tmo_us + MARGIN_PER_STEP_US):
+            if not (fe[1] + tmo_us <= fx[1] <= fe[1] + tmo_us + MARGIN_PER_STEP_US + stall_margin):
                 out.append(Violation("C07/timeout-wrong-instant", f"delivery {d}: body cancelled at t={fx[1]}us, entered at {fe[1]}us, timeout {tmo}s"))
         nores = (not timed_out) and outc[0] in ("nores", "requeue")
         if nores:
